@@ -14,6 +14,9 @@ import (
 	"github.com/SAP/go-dblib/asetime"
 )
 
+// fractionalSecondsPerDay is the number of 1/300 seconds in a day.
+const fractionalSecondsPerDay = 24 * 60 * 60 * 300
+
 // Bytes returns a byte slice based on a given value-interface and depending
 // on the ASE data type.
 // TODO: Instead of parameter 'length', one could use a struct to store
@@ -66,27 +69,37 @@ func (t DataType) Bytes(endian binary.ByteOrder, value interface{}, length int64
 	case TIME, TIMEN:
 		dur := asetime.DurationFromTime(value.(time.Time))
 		fract := asetime.MillisecondToFractionalSecond(dur.Microseconds())
+		if fract >= fractionalSecondsPerDay {
+			// The last 1/600 second of a day is rounded up to the next
+			// day - TIME has no day to carry into.
+			fract = fractionalSecondsPerDay - 1
+		}
 
 		bs := make([]byte, length)
 		endian.PutUint32(bs, uint32(fract))
 		return bs, nil
 	case SHORTDATE, DATETIME, DATETIMEN:
-		t := asetime.DurationFromDateTime(value.(time.Time))
-		t -= asetime.DurationFromDateTime(asetime.Epoch1900())
-
-		days := t.Days()
+		// Split the value into whole days since 1900-01-01, which are
+		// negative for earlier dates, and the time of day.
+		tod := asetime.DurationFromTime(value.(time.Time))
+		date := asetime.DurationFromDateTime(value.(time.Time)) - tod
+		days := (date - asetime.DurationFromDateTime(asetime.Epoch1900())).Days()
 
 		bs := make([]byte, length)
 		switch length {
 		case 4: // SHORTDATE/DATETIME4, DATETIMEN(4)
-			s := asetime.ASEDuration(t.Microseconds() - days*int(asetime.Day))
 			binary.LittleEndian.PutUint16(bs[:2], uint16(days))
-			binary.LittleEndian.PutUint16(bs[2:], uint16(s.Minutes()))
+			binary.LittleEndian.PutUint16(bs[2:], uint16(tod.Minutes()))
 		case 8: // DATETIME, DATETIMEN(8)
-			s := t.Microseconds() - days*int(asetime.Day)
-			s = asetime.MillisecondToFractionalSecond(s)
+			fract := asetime.MillisecondToFractionalSecond(tod.Microseconds())
+			if fract >= fractionalSecondsPerDay {
+				// The last 1/600 second of a day is rounded up to the
+				// next day.
+				days++
+				fract -= fractionalSecondsPerDay
+			}
 			binary.LittleEndian.PutUint32(bs[:4], uint32(days))
-			binary.LittleEndian.PutUint32(bs[4:], uint32(s))
+			binary.LittleEndian.PutUint32(bs[4:], uint32(fract))
 		}
 		return bs, nil
 	case BIGDATETIMEN:
